@@ -2,8 +2,9 @@
 
 The REAL aioftp.Server runs on simnet with a fault-injecting backend: a subclass of the shipped backend class
 in which the INNERMOST function of every operation (below the class's own decorator stack, which is rebuilt
-around it unchanged - so `universal_exception` is exercised exactly where the source puts it) raises an exception (OSError, ValueError or RuntimeError)
-at the k-th backend call of the run.  Scripts x every k (single) and pairs (double) are compared with the
+around it unchanged - so `universal_exception` is exercised exactly where the source puts it) raises an exception (27 classes)
+at the k-th backend call of the run - or (the SHAPE dimension) an override of the operation ABOVE that stack, the custom
+backend's own method, reports the failure itself as an aioftp.PathIOError (bare, with a `reason` of several shapes, subclasses).  Scripts x every k (single) and pairs (double) are compared with the
 extracted Model/Faults.v (instantiated with the facts regenerated from the source) and judged by the
 property's own oracle (451, no 2xx, data EOF, follow-ups on the same and on a second session).
 
@@ -12,6 +13,7 @@ Smoke test of the driver (fault at `open` of RETR):
 """
 import asyncio
 import errno
+import sys
 import time
 import shutil
 import tempfile
@@ -47,18 +49,22 @@ LEVEL_TEXT = (
     "C13_same_wakeup_contained (one wake-up of the dispatcher with ANY finished tasks in any order: each PathIOError task its own 451, "
     "every command line dispatched and parse_command re-armed; obligation C13_round_obligation: each task.result() under its own try), "
     "C13_batch_try_drops (what one try around all results would lose). "
+    "C13_shape_obligation (the dispatcher's PathIOError clause never reads the exception object: the reaction is the same for a "
+    "PathIOError made by universal_exception, one raised by the backend itself with reason=None or any other reason, and any subclass). "
     "Tied to the code by C13_source_obligations / C13_probe_obligations (vm_compute on facts regenerated from server.py / pathio.py) "
-    "and by scripts x every fault position (single, double; 27 exception classes incl. the TimeoutError family and a real path_timeout expiry; three "
-    "backends) and by the same-wake-up stream (two tasks of one session aligned in one dispatcher round) on the real server."
+    "and by scripts x every fault position (single, double; 27 exception classes incl. the TimeoutError family and a real path_timeout expiry; "
+    "every fault site x 11 shapes of a PathIOError the backend raises itself; three backends) and by the same-wake-up stream (two tasks of one session aligned in one dispatcher round) on the real server."
 )
 LEVEL_NOTE = (
     "Trusted: Coq kernel, py2v (gen_dispatch, gen_faultsites), extraction, simnet, the fault injector (rebuilds each backend method's "
     "decorator closure around a raising leaf). Modelled not verified: asyncio `async with` enter/exit order and exception "
     "replacement, one command at a time, faults while writing to the data socket, cancellation (C14), custom backends that do "
-    "not use universal_exception."
+    "not use universal_exception and raise something else than PathIOError (a custom backend that raises PathIOError itself - any "
+    "shape, any subclass - IS exercised: the shape stream; the Coq model has no exception payload, which is what C13_shape_obligation ties to the source)."
 )
 TRUSTED = [
     "fault injector: types.FunctionType re-closure of the shipped methods' decorator stacks around a leaf that raises (27 classes), outlasts path_timeout, or parks until released",
+    "fault injector, shape stream: an override of each operation above the shipped decorator stack raises aioftp.PathIOError / a subclass at the k-th backend call",
     "simnet: EOF / open-transport ledger stands for what a TCP peer would observe",
 ]
 ASSUMPTIONS = [
@@ -110,6 +116,60 @@ KINDS = {
     "slow": None,
 }
 KIND_NAMES = tuple(k for k in KINDS if k != "slow")
+
+
+# ---- the SHAPE of the failure.  The kinds above are raised INSIDE the shipped operation (below its decorator stack): the
+# shipped `universal_exception` turns them into PathIOError(reason=sys.exc_info()).  A backend may just as well report its
+# own failure the documented way - by raising aioftp.PathIOError ITSELF from a method of its own that carries no
+# universal_exception (a quota check in an overridden mkdir / write, a remote store that is down ...).  PathIOError is
+# public, `reason` is optional (default None) and nothing says what it holds; subclasses are PathIOErrors.  These kinds
+# are raised by an override of the operation ABOVE the shipped decorator stack, so they reach the dispatcher as they are.
+class QuotaExceeded(aioftp.PathIOError):
+    """plain subclass"""
+
+
+class BackendDown(aioftp.PathIOError):
+    """subclass with a constructor of its own (no `reason` keyword, hence no `reason` attribute; own attributes)"""
+
+    def __init__(self, op):
+        Exception.__init__(self, op)
+        self.op = op
+
+
+class DiskError(aioftp.PathIOError, OSError):
+    """subclass that is an OSError too (as aioftp's own NoAvailablePort is)"""
+
+
+def _as_universal_exception_does(m):
+    try:
+        raise OSError(errno.ENOSPC, m)
+    except OSError as e:
+        x = aioftp.PathIOError(reason=sys.exc_info())
+        x.__cause__ = e
+        return x
+
+
+def _chained(m):
+    x = aioftp.PathIOError(m)
+    x.__cause__ = OSError(errno.EDQUOT, m)
+    return x
+
+
+SHAPES = {
+    "pio-bare": lambda m: aioftp.PathIOError(),
+    "pio-msg": lambda m: aioftp.PathIOError(m),
+    "pio-chained": _chained,
+    "pio-excinfo": _as_universal_exception_does,
+    "pio-reason-empty-excinfo": lambda m: aioftp.PathIOError(m, reason=(None, None, None)),  # sys.exc_info() outside a handler
+    "pio-reason-exc": lambda m: aioftp.PathIOError(reason=OSError(errno.ENOSPC, m)),
+    "pio-reason-str": lambda m: aioftp.PathIOError(m, reason="quota exceeded"),
+    "pio-sub": QuotaExceeded,
+    "pio-sub-own-init": BackendDown,
+    "pio-sub-oserror": lambda m: DiskError(errno.EIO, m),
+}
+# ... and a PathIOError raised INSIDE the shipped operation (wrapped once more by universal_exception: reason names a PathIOError)
+KINDS["pio-inside"] = lambda m: aioftp.PathIOError(m)
+SHAPE_NAMES = tuple(SHAPES) + ("pio-inside",)
 PATH_TIMEOUT = 3
 SEARCH_SECONDS = 90  # wall-clock box of the escalated failing-input search
 
@@ -124,6 +184,8 @@ def kind_class(kind):
     kind = kind.partition("/")[0]
     if kind == "slow":
         return "path_timeout-expiry"
+    if kind in SHAPES:
+        return "by-the-backend-itself:" + kind
     return type(KINDS[kind]("x")).__name__
 
 
@@ -138,6 +200,7 @@ class Ctl:
         self.gate_ops = {}  # operation name -> asyncio.Event: the NEXT call of that operation parks, then raises
         self.parked = []
         self.async_level = kind == "slow"  # inject above the executor hop (inside with_timeout / universal_exception)
+        self.outer = kind in SHAPES  # the backend's own override raises a PathIOError of that shape, above the shipped decorators
 
 OPS = ("exists", "is_dir", "is_file", "mkdir", "rmdir", "unlink", "stat", "_open", "seek", "write", "read", "close", "rename")
 
@@ -187,8 +250,34 @@ def fault_factory(base, plan, log, kind="os", ctl=None):
         return r
 
     def make_exc(i, name):
-        k = ctl.kind if ctl.kind != "slow" else "os"
+        k = ctl.kind if ctl.kind != "slow" and not ctl.outer else "os"
         return KINDS[k](f"injected fault at backend call {i} ({name})")
+
+    def override(name, fn):
+        """the custom backend's own method: reports ITS failure as a PathIOError of shape ctl.kind, else the shipped operation"""
+        if not ctl.outer:
+            return fn
+
+        def fail_here():
+            i = len(log)
+            if i in plan:
+                log.append((name, True))
+                raise SHAPES[ctl.kind](f"backend reports its own failure at backend call {i} ({name})")
+
+        if asyncio.iscoroutinefunction(fn):
+
+            async def g(self, *a, **k):
+                fail_here()
+                return await fn(self, *a, **k)
+
+        else:
+
+            def g(self, *a, **k):
+                fail_here()
+                return fn(self, *a, **k)
+
+        g.__name__ = getattr(fn, "__name__", name)
+        return g
 
     def tick(name):
         i = len(log)
@@ -243,11 +332,11 @@ def fault_factory(base, plan, log, kind="os", ctl=None):
         def list(self, path):
             lister = super().list(path)
             cls = type(lister)
-            cls.__anext__ = rebuild(cls.__anext__, leaf_for("list"), ctl.async_level)
+            cls.__anext__ = override("list", rebuild(cls.__anext__, leaf_for("list"), ctl.async_level))
             return lister
 
     for n in OPS:
-        setattr(Faulty, n, rebuild(getattr(base, n), leaf_for(n.lstrip("_")), ctl.async_level))
+        setattr(Faulty, n, override(n.lstrip("_"), rebuild(getattr(base, n), leaf_for(n.lstrip("_")), ctl.async_level)))
     return Faulty
 
 
@@ -846,7 +935,12 @@ def correspondence(ctx, budget=None):
         "for subsets. Compared with the model per command: reply codes, backend call sequence with raise marks, data connection "
         "taken / closed (client-side EOF after 30 virtual seconds), bytes / listing received, session probe, server-side open data "
         "transports, final tree. Every other run uses a backend whose result-ignored operations (close, mkdir, rmdir, unlink, rename) return "
-        "truthy values instead of None. Non-trivial = distinct (backend, script, fault plan, class/return mode). SAME-ROUND stream: the j-th backend call "
+        "truthy values instead of None. SHAPE of the failure: besides exceptions raised inside the shipped operation (wrapped by universal_exception) "
+        "the backend reports its failure ITSELF - an override above the shipped decorator stack raises aioftp.PathIOError() / PathIOError(msg) / "
+        "with __cause__ / reason=sys.exc_info() / reason=(None, None, None) / reason=<exception> / reason=<str> / a plain subclass / a subclass with "
+        "its own constructor (no reason attribute) / a subclass that is an OSError too, and PathIOError raised inside the shipped operation: every fault "
+        "site (backend, command, operation) x every shape on MemoryPathIO (two shapes per site on PathIO / AsyncPathIO), every other single position and "
+        "every third double with one rotating shape; thorough: every single position x every shape. Non-trivial = distinct (backend, script, fault plan, class/return mode). SAME-ROUND stream: the j-th backend call "
         "of RETR / STOR / LIST / MLSD / MKD / DELE (every j) parks inside the backend; then either the next command line (PWD, or an "
         "unknown verb) is written but held on the wire, or a pipelined MKD / DELE parks in its own backend call; both are let go d loop "
         "iterations apart (quick d in -2..2, thorough -4..4) so that both tasks are done in ONE wake-up of the dispatcher (counted by a spy "
@@ -861,12 +955,15 @@ def correspondence(ctx, budget=None):
         "unwrapped_ops": [sx.txt(m) for m, w in params[5] if not w],
     }
     jobs = []
+    seen_sites = set()
     todo = [("memory", s) for s in MEMORY_SCRIPTS] + [("path", s) for s in DISK_SCRIPTS] + [("async", s) for s in ASYNC_SCRIPTS]
     for backend, name in todo:
         events = script_events(name)
         obs0, tree0, log0 = run_impl(events, set(), backend)
         n = len(log0)
         ctx.count("backend_calls_in_fault_free_runs", n)
+        # fault SITE of every position: (command, operation)
+        site_of = [(e[1].lower(), m) for e, o in zip(events, obs0) for m, _ in o["calls"]]
         plans = [set()] + plans_for(rng, n, thorough)
         if backend == "async" or (backend == "path" and not thorough):
             plans = [p for p in plans if len(p) <= 1] + [p for p in plans if len(p) > 1][:: 4]
@@ -882,7 +979,20 @@ def correspondence(ctx, budget=None):
             if not p:
                 jobs.append((backend, name, events, p, "os/truthy"))
             if thorough and not budget and len(p) == 1 and backend == "memory":
-                jobs.extend((backend, name, events, p, k2) for k2 in KIND_NAMES if k2 != kind)
+                jobs.extend((backend, name, events, p, k2) for k2 in KIND_NAMES + SHAPE_NAMES if k2 != kind)
+            elif p:
+                # the SHAPE of the failure: the backend reports it ITSELF as a PathIOError (bare, with a reason of some shape,
+                # a subclass).  Every fault site (backend, command, operation) x every shape once; every other single
+                # position and every third double with one shape (rotating)
+                site = (backend,) + site_of[min(p)] if min(p) < len(site_of) else None
+                shapes = ()
+                if len(p) == 1 and site not in seen_sites and not budget:
+                    seen_sites.add(site)
+                    shapes = SHAPE_NAMES if backend == "memory" else tuple(SHAPE_NAMES[(len(jobs) + j) % len(SHAPE_NAMES)] for j in (0, 5))
+                elif (len(p) == 1 and backend == "memory") or len(jobs) % 3 == 0:
+                    shapes = (SHAPE_NAMES[(sum(p) + len(jobs)) % len(SHAPE_NAMES)],)
+                for j, k2 in enumerate(shapes):
+                    jobs.append((backend, name, events, p, k2 + ("/truthy" if (len(jobs) + j) % 2 else "")))
             if len(p) == 1 and backend == "async":
                 # the operation outlasts path_timeout: the backend's own with_timeout expires (AsyncPathIO only has one)
                 jobs.append((backend, name, events, p, "slow/truthy" if len(jobs) % 2 else "slow"))
@@ -895,6 +1005,7 @@ def correspondence(ctx, budget=None):
         ctx.count("faults_%d" % len(plan))
         if plan:
             ctx.count("raises_" + kind_class(kind))
+            ctx.count("failure_shape_" + ("PathIOError_raised_by_the_backend_itself" if kind.partition("/")[0] in SHAPES else "exception_inside_the_shipped_operation"))
         if kind.endswith("/truthy"):
             ctx.count("backend_returns_truthy_where_None_is_documented")
         if getattr(ctx, "deadline", None) and time.time() > ctx.deadline:
